@@ -510,7 +510,7 @@ func genC12(t *rapid.T) C12Case {
 	case r < 3:
 		c.ArchiveID = rapid.IntRange(0, len(l.Archives)-1).Draw(t, "archive")
 	case r == 3:
-		c.ArchiveID = len(l.Archives) + rapid.IntRange(0, 1).Draw(t, "badArchive")
+		c.ArchiveID = rapid.SampledFrom([]int{len(l.Archives), len(l.Archives) + 1, -2, -3, 100}).Draw(t, "badArchive")
 	}
 	c.Header = rapid.Bool().Draw(t, "header")
 	c.Sort = rapid.Bool().Draw(t, "sort")
